@@ -861,3 +861,90 @@ Theorem flatten_keeps_or_sets : forall g maths, step g (OFlatten maths) = false 
 Proof.
   intros g maths H. destruct g; [|reflexivity]. cbn [step] in H. rewrite reread_true in H. discriminate.
 Qed.
+
+(** * Per-instance state *)
+Theorem instance_members_ok : members_ok GlobalSites.instance_members = true.
+Proof. vm_compute. reflexivity. Qed.
+
+Theorem instance_members_are_the_modelled_ones :
+  map (fun e : string * string * bool => let '(c, m, _) := e in (c, m)) GlobalSites.instance_members =
+  [("Logger::LoggerImpl", "mErrors"); ("Logger::LoggerImpl", "mWarnings"); ("Logger::LoggerImpl", "mMessages");
+   ("Logger::LoggerImpl", "mIssues");
+   ("Parser::ParserImpl", "mParser"); ("Parser::ParserImpl", "mParsing1XVersion"); ("Parser::ParserImpl", "mParsing20Version");
+   ("Validator::ValidatorImpl", "mValidator");
+   ("Analyser::AnalyserImpl", "mAnalyser"); ("Analyser::AnalyserImpl", "mModel"); ("Analyser::AnalyserImpl", "mExternalVariables");
+   ("Analyser::AnalyserImpl", "mInternalVariables"); ("Analyser::AnalyserImpl", "mInternalEquations");
+   ("Analyser::AnalyserImpl", "mGeneratorProfile"); ("Analyser::AnalyserImpl", "mStandardUnits"); ("Analyser::AnalyserImpl", "mCiCnUnits");
+   ("Generator::GeneratorImpl", "mModel"); ("Generator::GeneratorImpl", "mCode"); ("Generator::GeneratorImpl", "mProfile");
+   ("Printer::PrinterImpl", "mPrinter");
+   ("Importer::ImporterImpl", "mImporter"); ("Importer::ImporterImpl", "mLibrary"); ("Importer::ImporterImpl", "mImports");
+   ("Annotator::AnnotatorImpl", "mAnnotator"); ("Annotator::AnnotatorImpl", "mIdList"); ("Annotator::AnnotatorImpl", "mModel");
+   ("Annotator::AnnotatorImpl", "mCounter"); ("Annotator::AnnotatorImpl", "mHash");
+   ("Strict::StrictImpl", "mStrict")].
+Proof. vm_compute. reflexivity. Qed.
+
+Section InstanceProofs.
+  Variables (A R : Type).
+  Variable cls : string -> mclass.
+  Variable init : istate.
+  Variable body : A -> istate -> R * istate.
+
+  (** what is assumed of the code of a call (and observed by the same-instance histories of every run):
+      it does not write the members that only the constructor / the setters of the API write, and caches are transparent *)
+  Hypothesis untouched : forall a s m, is_fixed (cls m) = true -> snd (body a s) m = s m.
+  Hypothesis transparent : forall a s1 s2, (forall m, is_cache (cls m) = false -> s1 m = s2 m) -> fst (body a s1) = fst (body a s2).
+  (** every member is per-call scratch, fixed, or a transparent cache: no counter, nothing unclassified *)
+  Hypothesis classified : forall m, is_reset (cls m) || is_fixed (cls m) || is_cache (cls m) = true.
+
+  Lemma run_history_fixed : forall ys s m, is_fixed (cls m) = true -> run_history A R cls init body s ys m = s m.
+  Proof.
+    induction ys as [|a r IH]; intros s m Hm; [reflexivity|].
+    cbn [run_history]. rewrite IH by exact Hm. unfold call. rewrite untouched by exact Hm.
+    unfold head. destruct (is_reset (cls m)) eqn:E; [|reflexivity].
+    destruct (cls m); discriminate.
+  Qed.
+
+  Theorem same_instance_history_irrelevant : forall ys x,
+    result_after A R cls init body ys x = result_after A R cls init body [] x.
+  Proof.
+    intros ys x. unfold result_after, call. apply transparent. intros m Hc.
+    cbn [run_history]. unfold head. destruct (is_reset (cls m)) eqn:E; [reflexivity|].
+    apply run_history_fixed. pose proof (classified m) as K. rewrite E, Hc in K.
+    rewrite orb_false_r in K. exact K.
+  Qed.
+
+  (** without the assumption that calls leave documented state alone (Importer: the library grows; Generator / Annotator:
+      set through the API between calls): the result is a function of the argument and of the members that are neither
+      per-call scratch nor caches *)
+  Theorem result_depends_on_persistent_state_only : forall x s1 s2,
+    (forall m, is_reset (cls m) = false -> is_cache (cls m) = false -> s1 m = s2 m) ->
+    fst (call A R cls init body x s1) = fst (call A R cls init body x s2).
+  Proof.
+    intros x s1 s2 H. unfold call. apply transparent. intros m Hc. unfold head.
+    destruct (is_reset (cls m)) eqn:E; [reflexivity|]. apply H; assumption.
+  Qed.
+End InstanceProofs.
+
+(** the services all of whose members are scratch / fixed / caches: everything but the Annotator (its counter) *)
+Theorem services_members_classified : forall c m,
+  (c = "Logger::LoggerImpl" \/ c = "Parser::ParserImpl" \/ c = "Validator::ValidatorImpl" \/ c = "Analyser::AnalyserImpl"
+   \/ c = "Generator::GeneratorImpl" \/ c = "Printer::PrinterImpl" \/ c = "Importer::ImporterImpl" \/ c = "Strict::StrictImpl") ->
+  In m (map (fun e : string * string * bool => let '(_, m, _) := e in m)
+            (filter (fun e : string * string * bool => let '(c', _, _) := e in String.eqb c' c) GlobalSites.instance_members)) ->
+  is_reset (classify c m) || is_fixed (classify c m) || is_cache (classify c m) = true.
+Proof.
+  intros c m H Hin.
+  repeat (destruct H as [H|H]; [subst c; vm_compute in Hin; repeat (destruct Hin as [Hin|Hin]; [subst m; reflexivity|]); contradiction|]).
+  subst c; vm_compute in Hin; repeat (destruct Hin as [Hin|Hin]; [subst m; reflexivity|]); contradiction.
+Qed.
+
+(** a member that is a counter makes the result depend on the history: one member, read and incremented by the call *)
+Theorem counter_member_refuted :
+  exists (cls : string -> mclass) (init : istate) (body : nat -> istate -> nat * istate),
+    (forall m, cls m = MCounter) /\
+    result_after nat nat cls init body [0] 0 <> result_after nat nat cls init body [] 0.
+Proof.
+  exists (fun _ => MCounter), (fun _ => 0),
+         (fun _ s => (s "mCounter", fun m => if String.eqb m "mCounter" then S (s m) else s m)).
+  split; [reflexivity|vm_compute; discriminate].
+Qed.
